@@ -60,6 +60,8 @@ def run_large(case):
     qs.append(corpus.derived_queries(rng, sig, conds, 1)[0])
     op = impl.results(impl.ask(impl.mk_bb(sig, conds), 'system-z', '', impl.mk_queries(qs)))
     for qi, (B, A) in enumerate(qs):
+        if not fml.tt(A, sig):
+            continue            # antecedent without model: outside the statement (acceptance is defined as False)
         acc = o.conditional_acceptance(impl.mk_cond(B, A))
         res['evals'] += 1
         res['nontrivial'].append(h(bdesc, fml.cond_text(B, A)))
